@@ -354,6 +354,82 @@ def task_nondestructive(mname: str, order: Tuple[str, ...], fkey: str) -> List[D
              "detail": "original state_dict bit-identical, no shared storage, backends list untouched, original outputs/gradients unchanged, repeated calls equal"}]
 
 
+def task_retrace(mname: str, order: Tuple[str, ...], fkey: str) -> List[Dict[str, Any]]:
+    """repeated calls that force TorchDynamo to re-trace (grad mode switch, other batch size): every re-trace must apply every
+    library backend again, and the result must equal that of a freshly transformed copy with the same state"""
+    torch.set_num_threads(1)
+    name = f"retrace[{mname},{'>'.join(order)},{fkey}]"
+    mk = family()[mname]
+    torch.manual_seed(0)
+    m = mk()
+    x = example(mname)[0]
+    bad: List[str] = []
+    counts: Dict[str, int] = {}
+    try:
+        torch._dynamo.reset()
+        tm = chain(order, fkey)(m)
+
+        def counted(b: Any, label: str) -> Any:
+            def w(gm: Any, ex: Any) -> Any:
+                counts[label] = counts.get(label, 0) + 1
+                return b(gm, ex)
+            w.__qualname__ = getattr(b, "__qualname__", label)
+            return w
+
+        labels = []
+        for i, b in enumerate(list(tm.backends)):
+            qn = getattr(b, "__qualname__", f"backend{i}")
+            lab = "unit" if "unit_scaling_backend" in qn else "quant" if "quantisation_backend" in qn else "track" if "ScaleTracking" in str(qn) + type(b).__name__ else f"b{i}"
+            labels.append(lab)
+            tm.backends[i] = counted(b, lab)
+
+        def probe(gm: Any, ex: Any) -> Any:
+            counts["trace"] = counts.get("trace", 0) + 1
+            return gm
+        probe.__qualname__ = "verif_probe"
+        tm.backends.insert(0, probe)
+        calls = [("grad-enabled call", lambda: tm(x.clone().requires_grad_(True))),
+                 ("call under torch.no_grad()", lambda: _nograd(tm, x)),
+                 ("call with another batch size", lambda: tm(torch.cat([x, x[:1]], 0))),
+                 ("first input again", lambda: tm(x.clone()))]
+        outs = []
+        for label, fn in calls:
+            before = dict(counts)
+            o = fn()
+            o = o[0] if isinstance(o, tuple) else o
+            outs.append(o.detach().clone())
+            dt = counts.get("trace", 0) - before.get("trace", 0)
+            for lab in set(labels):
+                d = counts.get(lab, 0) - before.get(lab, 0)
+                if d != dt * labels.count(lab):
+                    bad.append(f"{label}: TorchDynamo traced {dt} graph(s) but backend '{lab}' ran {d} time(s)")
+        if FORMATS[fkey][0][2] == "nearest":
+            if not torch.equal(outs[0], outs[1]) or not torch.equal(outs[0], outs[3]):
+                bad.append("same input gives different results on repeated calls (grad / no_grad / again)")
+            torch._dynamo.reset()
+            torch.manual_seed(0)
+            fresh = chain(order, fkey)(mk())
+            fresh.load_state_dict(tm.state_dict())
+            of = fresh(torch.cat([x, x[:1]], 0))
+            of = of[0] if isinstance(of, tuple) else of
+            if not torch.allclose(outs[2], of.detach(), rtol=1e-6, atol=1e-7):
+                bad.append(f"re-traced call differs from a freshly transformed copy with the same state (max abs {(outs[2] - of.detach()).abs().max().item():.3g})")
+    except Exception as e:
+        bad.append(f"raised {type(e).__name__}: {str(e)[:200]}")
+    finally:
+        torch._dynamo.reset()
+    if bad:
+        return [{"type": "violation", "key": f"C17/{name}", "what": "; ".join(bad[:4]),
+                 "replay": {"kind": "retrace", "module": mname, "order": list(order), "formats": fkey}}]
+    return [{"type": "obligation", "name": name, "status": CONCRETE, "queries": 0, "kind": "concrete",
+             "detail": f"4 calls (grad, no_grad, other batch, again): traces={counts.get('trace')}, each library backend applied once per trace; results consistent"}]
+
+
+def _nograd(tm: Any, x: torch.Tensor) -> Any:
+    with torch.no_grad():
+        return tm(x.clone())
+
+
 def h_compose(n: int):
     """_compose_backends with uninterpreted backends: each applied exactly once, in list order"""
 
@@ -407,6 +483,9 @@ def run(rep: Report, only: str = "") -> None:
             if mname == "uu.MLP" and "unit_scale" in ch:
                 continue  # unit_scale() of a module that already calls unit-scaled functions: outside the property's family
             tasks.append((task_nondestructive, (mname, ch, "fp8-nearest")))
+    for mname in fam:
+        for ch in (("unit_scale",), ("simulate",), ("unit_scale", "simulate"), ("simulate", "unit_scale"), ("unit_scale", "track")):
+            tasks.append((task_retrace, (mname, ch, "fp8-nearest")))
     if only:
         tasks = [t for t in tasks if only in repr(t[1]) or only in t[0].__name__]
     rep.extend(run_tasks(tasks))
@@ -422,6 +501,10 @@ def run(rep: Report, only: str = "") -> None:
 
 
 def replay(data: Dict[str, Any]) -> Tuple[bool, str]:
+    if data.get("kind") == "retrace":
+        r = task_retrace(data["module"], tuple(data["order"]), data["formats"])
+        v = [x for x in r if x.get("type") == "violation"]
+        return bool(v), str([x["what"] for x in v] or "ok")
     if data.get("kind") == "nondestructive":
         r = task_nondestructive(data["module"], tuple(data["order"]), data["formats"])
         v = [x for x in r if x.get("type") == "violation"]
